@@ -240,9 +240,7 @@ impl PublishBuilder {
             // handle client receive maximum
             if let Some(rx) = self.shared.wait_readiness() {
                 Either::Left(Either::Left(async move {
-                    if rx.await.is_err() {
-                        return Err(SendPacketError::Disconnected);
-                    }
+                    self.shared.wait_ready(rx).await?;
                     self.send_at_least_once_inner(payload).await
                 }))
             } else {
@@ -311,9 +309,7 @@ impl PublishBuilder {
             // handle client receive maximum
             if let Some(rx) = self.shared.wait_readiness() {
                 Either::Left(Either::Left(async move {
-                    if rx.await.is_err() {
-                        return Err(SendPacketError::Disconnected);
-                    }
+                    self.shared.wait_ready(rx).await?;
                     self.send_exactly_once_inner(payload).await
                 }))
             } else {
@@ -363,9 +359,7 @@ impl PublishBuilder {
             // handle client receive maximum
             let fut = if let Some(rx) = self.shared.wait_readiness() {
                 Either::Left(Either::Left(async move {
-                    if rx.await.is_err() {
-                        return Err(SendPacketError::Disconnected);
-                    }
+                    self.shared.wait_ready(rx).await?;
                     self.stream_at_least_once_inner(tx).await
                 }))
             } else {
@@ -479,10 +473,8 @@ impl SubscribeBuilder {
             Err(SendPacketError::Disconnected)
         } else {
             // handle client receive maximum
-            if let Some(rx) = self.shared.wait_readiness()
-                && rx.await.is_err()
-            {
-                return Err(SendPacketError::Disconnected);
+            if let Some(rx) = self.shared.wait_readiness() {
+                self.shared.wait_ready(rx).await?;
             }
             let idx = self.id.unwrap_or_else(|| self.shared.next_id());
             let rx = self.shared.wait_response(idx, AckType::Subscribe)?;
@@ -564,10 +556,8 @@ impl UnsubscribeBuilder {
             Err(SendPacketError::Disconnected)
         } else {
             // handle client receive maximum
-            if let Some(rx) = shared.wait_readiness()
-                && rx.await.is_err()
-            {
-                return Err(SendPacketError::Disconnected);
+            if let Some(rx) = shared.wait_readiness() {
+                shared.wait_ready(rx).await?;
             }
             // allocate packet id
             let idx = self.id.unwrap_or_else(|| shared.next_id());
